@@ -57,7 +57,7 @@ class Gen:
         if self.numvars:
             opts += ["var"]
         if d < self.max_depth:
-            opts += ["add", "subtract", "multiply", "length"]
+            opts += ["add", "subtract", "multiply", "length", "mod", "int"]
         c = r.choice(opts)
         if c == "term":
             return L.term(r.choice([0, 1, 2, 3, 5, 9, 10, 11, 100, -2]))
@@ -71,13 +71,18 @@ class Gen:
             args = [self.num_or_none(d + 1) for _ in range(r.choice([2, 2, 3]))]
             return L.fn("add", *args)
         if c == "subtract":
-            return L.fn(r.choice(["subtract", "minus"]), self.num(d + 1), self.num(d + 1))
+            more = [self.num(d + 1)] if r.random() < 0.25 else []
+            return L.fn(r.choice(["subtract", "minus"]), self.num(d + 1), self.num(d + 1), *more)
         if c == "multiply":
             # operands are non-negative: a negative operand times 0 is -0.0, whose text form "-0.0"
             # is outside the value model (integral floats print as "n.0")
             return L.fn("multiply", self.nonneg(), self.nonneg())
         if c == "length":
             return L.fn("length", self.text(d + 1))
+        if c == "mod":
+            return L.fn("mod", self.nonneg(), L.term(r.choice([1, 2, 3, 7])))
+        if c == "int":
+            return L.fn("int", self.num(d + 1))
         raise AssertionError(c)
 
     def nonneg(self):
@@ -106,7 +111,7 @@ class Gen:
         if self.txtvars:
             opts += ["var"]
         if d < self.max_depth:
-            opts += ["concat", "lower", "upper", "substring"]
+            opts += ["concat", "lower", "upper", "substring", "strip"]
         c = r.choice(opts)
         if c == "term":
             return L.term(r.choice(["a", "b", "ab", "A", "x", "Zed", "ba", "10"]))
@@ -116,9 +121,13 @@ class Gen:
             return L.var(r.choice(self.txtvars))
         if c == "concat":
             # concat(nonempty, anything) is non-empty after the strip Function.to_value applies
-            return L.fn("concat", self.text(d + 1, allow_empty), self.text(d + 1, True))
+            more = [self.text(d + 1, True)] if r.random() < 0.3 else []
+            return L.fn("concat", self.text(d + 1, allow_empty), self.text(d + 1, True), *more)
         if c in ("lower", "upper"):
             return L.fn(c, self.text(d + 1))
+        if c == "strip":
+            t = self.text(d + 1)
+            return L.fn("strip", t if t["k"] != "term" else L.fn("concat", t, L.term("x")))
         if c == "substring":
             if allow_empty:
                 return L.fn("substring", self.text(d + 1, True), L.term(r.choice([0, 1, 2, 5])))
@@ -151,7 +160,8 @@ class Gen:
     # ---- match deciders (pure)
     def boolean(self, d=0):
         r = self.r
-        opts = ["hdr", "hdr", "cmp", "cmp", "cmp", "eq", "eq", "yesno", "exists", "empty", "starts"]
+        opts = ["hdr", "hdr", "cmp", "cmp", "cmp", "eq", "eq", "yesno", "exists", "empty", "starts",
+                "between", "between", "in", "equalsfn", "anyall", "first"]
         vs = self.numvars + self.txtvars + self.anyvars
         if vs:
             opts += ["var"]
@@ -175,6 +185,26 @@ class Gen:
             return L.eq(self.left_of(self.anyval(d + 1)), self.anyval(d + 1))
         if c == "yesno":
             return L.fn(r.choice(["yes", "no", "true", "false"]))
+        if c == "between":
+            op = r.choice(["between", "inside", "from_to", "range", "beyond", "outside"])
+            if r.random() < 0.7:
+                return L.fn(op, self.cmp_num(d + 1), self.num(d + 1), self.num(d + 1))
+            return L.fn(op, self.text(d + 1), self.text(d + 1), self.text(d + 1))
+        if c == "in":
+            x = self.anyval(d + 1)
+            lst = [r.choice([L.term("a|b | ab"), L.term("10|9|x y"), L.term(5), L.term("Zed"), self.anyval(d + 1)]) for _ in range(r.choice([1, 2, 3]))]
+            return L.fn("in", x, *lst)
+        if c == "equalsfn":
+            if r.random() < 0.5:
+                return L.fn(r.choice(["equals", "eq"]), self.num(d + 1), self.num(d + 1))
+            return L.fn(r.choice(["equals", "eq"]), self.text(d + 1), self.text(d + 1))
+        if c == "anyall":
+            k = r.choice(["any", "all", "missing", "all2", "missing2"])
+            if k in ("any", "all", "missing"):
+                return L.fn(k)
+            return L.fn(k[:-1], self.nonterm(self.href_any()), self.nonterm(self.href_any()))
+        if c == "first":
+            return L.fn(r.choice(["firstscan", "firstline"]))
         if c == "exists":
             return L.fn("exists", self.nonterm(self.anyval(d + 1)))
         if c == "empty":
@@ -184,7 +214,7 @@ class Gen:
         if c == "not":
             return L.fn("not", self.nonterm(self.boolean(d + 1)))
         if c in ("and", "or"):
-            return L.fn(c, self.boolean(d + 1), self.boolean(d + 1))
+            return L.fn(c, *[self.boolean(d + 1) for _ in range(r.choice([2, 2, 3, 4]))])
         if c == "valid":
             return L.fn(r.choice(["failed", "valid"]))
         raise AssertionError(c)
